@@ -99,6 +99,22 @@ CHECKS.update({
     design="6/C20"),
 })
 
+CHECKS.update({
+ "C16": dict(
+    text="Coq theorem over the model of the page store (fetch / append / flushPages on top of the LRU of C15, pages changed "
+         "through the node objects callers hold): for every capacity, operation list and flush visiting order, a run that "
+         "respects the discipline (nothing refused, every change through the currently cached object, new pages marked "
+         "dirty before eviction) reads every page exactly as an unbounded cache would; evicted pages are clean and equal "
+         "to their file image. Correspondence: (i) the page-store model against the real fileStore on random traces with "
+         "caches of 3-8 pages, (ii) whole statement histories executed with caches of 6..64 pages vs the default 10000 vs "
+         "the cache-less storage model (outcomes, SELECT *, page dumps identical).",
+    note="PARTIAL: that every B+ tree operation stays within the discipline for capacities above a few times the tree "
+         "height is validated by (ii), not proved. Runs whose per-statement dirty set exceeds the capacity (statement "
+         "refused with ErrLRUCacheFull) are outside the property's quantifier and counted separately. No axioms.",
+    technique="Coq proof (invariant over page-store operation lists) + small-cache vs default-cache differential runs",
+    design="6/C16"),
+})
+
 NOT_YET = {
 }
 
